@@ -29,3 +29,5 @@ def run(rep):
     dr.rule_dialect(rep, "C19.dialect")
     ms.rule_shared(rep, "C19.shared")
     ms.rule_det(rep, "C19.det")
+    # no hidden state: what the property promises for one use must hold for every later use as well
+    ms.rule_stateless(rep, "C19")
